@@ -326,9 +326,8 @@ func (s *MemoryBackend) read(ctx context.Context, store string, filter storage.R
 		}
 	}
 
-	if from <= len(matches) {
-		matches = matches[from:]
-	}
+	// an offset beyond the end yields an empty page (it must not restart from the beginning)
+	matches = matches[min(from, len(matches)):]
 
 	to := 0 // fetch everything
 	if options != nil {
